@@ -308,6 +308,19 @@ class Ctx:
             tmp = os.path.join(VERIF, "evidence", ".%s.json.tmp" % self.id)
             json.dump(ev, open(tmp, "w"), indent=1)
             os.replace(tmp, os.path.join(VERIF, "evidence", "%s.json" % self.id))
+        if not viol and not os.environ.get("VERIF_KEEP"):
+            # scratch data (vectors, traces, TLC copies) can reach gigabytes per run: keep it only when something was found
+            for name in os.listdir(self.out):
+                if name.startswith("replay-") or name == ".lock":
+                    continue
+                pth = os.path.join(self.out, name)
+                if os.path.isdir(pth):
+                    shutil.rmtree(pth, ignore_errors=True)
+                else:
+                    try:
+                        os.remove(pth)
+                    except OSError:
+                        pass
         log("%s %s: states=%d transitions=%d traces=%d evaluations=%d violations=%d known=%d wall=%.1fs" % (
             self.id, self.tier, self.states, self.transitions, self.traces, self.evaluations, viol, len(seen_known), time.time() - self.t0))
         return 1 if viol else 0
